@@ -361,6 +361,13 @@ class Check:
         for name, good in extra_obligations:
             self.obligations.append((name, good, []))
         self.forbidden = forb
+        gen_lines = [ln.strip() for ln in (build_result.log or '').splitlines() if ln.strip().startswith('gen_source:')]
+        if gen_lines:
+            self.coverage['source_translation'] = {
+                'translator': 'harness/gen_source.py (Python AST of the kernels listed in its KERNELS table -> '
+                              'lean/EpsieModel/Generated/Source.lean, regenerated from /repo on this run)',
+                'status': gen_lines,
+                'tie_modules': [m for m in prop_modules(self.prop) if 'Source' in m]}
         if forb:
             self.obligations.append(('no-forbidden-constructs', False, forb[:5]))
         for mod in build_result.failed_modules:
